@@ -21,7 +21,7 @@ theorem newRaw_ok (sz : Nat) :
       unfold computeCapacity; rw [compute_capacity_eq]; simp [liftRes]
     refine ⟨{ len := 0, cap := 0, elems := [], locked := false, rc := 1 }, ?_, rfl, rfl, rfl, rfl, ?_⟩
     · unfold reserve checkedAdd
-      simp [hz, hc]
+      simp [hz, hc, reserve_grows_eq]
     · exact ⟨rfl, Nat.le_refl _, Nat.zero_le _, fun h => absurd h hz, fun _ => Or.inl rfl⟩
 
 theorem rawPush_ok {sz : Nat} {l l' : RawList} {v : Nat}
@@ -91,10 +91,11 @@ theorem rawPush_error {sz : Nat} {l : RawList} {v : Nat} {f : Fault}
 theorem rawGet_eq {l : RawList} (hw : l.elems.length = l.len) (i : Nat) :
     rawGet l i = .ok l.elems[i]? := by
   unfold rawGet
+  rw [get_oob_eq]
   by_cases h : i ≥ l.len
-  · simp only [h, if_true]
+  · simp only [h, decide_true, if_true]
     rw [List.getElem?_eq_none (by omega)]
-  · simp only [h, if_false]
+  · simp only [h, decide_false, Bool.false_eq_true, if_false]
     have hi : i < l.elems.length := by omega
     rw [List.getElem?_eq_getElem hi]
 
@@ -187,8 +188,9 @@ theorem eqLoop_eq {a b : RawList} (ha : a.elems.length = a.len) (hb : b.elems.le
 theorem rawEqErased_eq {a b : RawList} (ha : a.elems.length = a.len) (hb : b.elems.length = b.len) :
     rawEqErased a b = .ok (decide (a.elems = b.elems)) := by
   unfold rawEqErased
+  rw [eq_len_differs_eq]
   by_cases hl : a.len = b.len
-  · simp only [hl, ne_eq, not_true_eq_false, if_false]
+  · simp only [hl, ne_eq, not_true_eq_false, decide_false, Bool.false_eq_true, if_false]
     have := eqLoop_eq ha hb hl a.len 0 (by omega)
     simp only [List.drop_zero] at this
     rw [← hl]; exact this
@@ -244,16 +246,17 @@ theorem rawSwap_ok {sz : Nat} {l : RawList} (i j : Nat) (ok : RawOk sz l) :
       RawOk sz (rawSwap l i j) := by
   have hw := ok.wf
   unfold rawSwap
-  by_cases h1 : i ≥ l.len ∨ j ≥ l.len
-  · rw [if_pos h1]
-    exact ⟨(swapElems_oob (by omega)).symm, rfl, rfl, rfl, rfl, ok⟩
-  · rw [if_neg h1]
-    by_cases h2 : i = j
-    · rw [if_pos h2, h2]
-      exact ⟨swapElems_same.symm, rfl, rfl, rfl, rfl, ok⟩
-    · rw [if_neg h2]
-      refine ⟨rfl, rfl, rfl, rfl, rfl, ?_⟩
-      exact ⟨by simp [swapElems_length, hw], ok.le, ok.bound, ok.zst, ok.shape⟩
+  rw [swap_noop_eq]
+  by_cases h1 : i ≥ l.len ∨ j ≥ l.len ∨ i = j
+  · rw [decide_eq_true h1, if_pos rfl]
+    refine ⟨?_, rfl, rfl, rfl, rfl, ok⟩
+    rcases h1 with h1 | h1 | h1
+    · exact (swapElems_oob (by omega)).symm
+    · exact (swapElems_oob (by omega)).symm
+    · rw [h1]; exact swapElems_same.symm
+  · rw [decide_eq_false h1, if_neg (by simp)]
+    refine ⟨rfl, rfl, rfl, rfl, rfl, ?_⟩
+    exact ⟨by simp [swapElems_length, hw], ok.le, ok.bound, ok.zst, ok.shape⟩
 
 theorem rawExtend_ok {sz : Nat} {s o s' : RawList}
     (h : rawExtend sz s o = .ok s') (oks : RawOk sz s) (oko : RawOk sz o) :
